@@ -429,6 +429,18 @@ class Relaxed:
             return self.rnd(ex, op)
         if op == "i2f":
             return self.v(ir[1], env)
+        if op in ("trunc", "floor", "round_int"):
+            # float -> int conversions as integer variables constrained by the real argument
+            # (arguments are non-negative in every kernel query, so trunc = floor)
+            x = self.v(ir[1], env)
+            self.k += 1
+            kv = z3.Int("k%s_%d" % (self.tag, self.k))
+            kr = z3.ToReal(kv)
+            if op == "round_int":
+                self.s.add(kr - x <= z3.Q(1, 2), x - kr <= z3.Q(1, 2))
+            else:
+                self.s.add(kr <= x, x - kr < 1)
+            return kr
         raise Unsupported("relaxed op %s" % op)
 
 
